@@ -71,8 +71,9 @@ TraceBand ==
              (* (C13) on the replicates with the rates of the ORIGINAL object as point estimates            *)
              <<"C16.bands_are_envelope_of_pointwise_intervals", ~lens \/ ~r.nan_free \/ e.fn # "roc_with_ci" \/
                   e.sampler # "scripted" \/ ~("boot_fnr" \in DOMAIN r) \/ Len(r.boot_fnr) # n \/
-                  LET b == BandsFromPointwise(fn, fp, NPos(o), NNeg(o), r.fnr6, r.fpr6, r.boot_fnr, r.boot_fpr, e.alpha)
-                  IN \A j \in 1..n : near(Band(r.fnr_ci)[j], b.fnr[j]) /\ near(Band(r.fpr_ci)[j], b.fpr[j])>>,
+                  LET pw == PointwiseCI(fn, fp, NPos(o), NNeg(o), r.boot_fnr, r.boot_fpr, e.alpha)
+                  IN /\ EnvelopeOK(r.fnr6, pw.fnr, pw.fpr, Band(r.fpr_ci), 3)
+                     /\ EnvelopeOK(r.fpr6, pw.fpr, pw.fnr, Band(r.fnr_ci), 3)>>,
              <<"C16.identity_sampler_closed_form", ~lens \/ ~r.nan_free \/ e.fn # "roc_with_ci" \/ ~e.identity \/
                   Len(r.u) # n \/ Len(r.w) # n \/
                   \A j \in 1..n : near(Band(r.fnr_ci)[j], cf.fnr[j]) /\ near(Band(r.fpr_ci)[j], cf.fpr[j])>>}),
